@@ -1028,15 +1028,19 @@ class ExecutionPlan:
                 new_set.update(parent_to_children_mapping[feature.uuid])
         return new_set
 
-    def group_features_by_compute_framework_and_options(self, features: Set[Feature]) -> Dict[int, Set[Feature]]:
+    def group_features_by_compute_framework_and_options(self, features: Set[Feature]) -> Dict[Any, Set[Feature]]:
         """Group features by compute framework, options, and data type.
 
         Features with data_type=None are "lenient" - they join existing groups
         with matching base properties (options + compute_frameworks).
         This allows index columns (which have no explicit type) to stay grouped
         with typed features from the same FeatureGroup.
+
+        Groups are keyed by the similarity key itself, i.e. by equality of
+        (options, compute frameworks, data type), not by its hash: features with
+        unequal options never share a group, even if the options hash alike.
         """
-        hash_collector: Dict[int, Set[Feature]] = defaultdict(set)
+        hash_collector: Dict[Any, Set[Feature]] = defaultdict(set)
         none_typed_features: list[Feature] = []
 
         # First pass: group features with explicit data_type
@@ -1044,24 +1048,23 @@ class ExecutionPlan:
             if feature.data_type is None:
                 none_typed_features.append(feature)
             else:
-                f_hash = feature.has_similarity_properties()
-                hash_collector[f_hash].add(feature)
+                hash_collector[feature.similarity_key()].add(feature)
 
-        # Second pass: assign None-typed features to existing groups with matching base hash
+        # Second pass: assign None-typed features to existing groups with matching base key
         for feature in none_typed_features:
-            base_hash = feature.base_similarity_properties()
+            base_key = feature.base_similarity_key()
             assigned = False
 
             # Find an existing group with matching base properties
-            for existing_hash, group in hash_collector.items():
+            for existing_key, group in hash_collector.items():
                 any_feature = next(iter(group))
-                if any_feature.base_similarity_properties() == base_hash:
-                    hash_collector[existing_hash].add(feature)
+                if any_feature.base_similarity_key() == base_key:
+                    hash_collector[existing_key].add(feature)
                     assigned = True
                     break
 
             if not assigned:
                 # No matching typed group found, create a new group for this None-typed feature
-                hash_collector[base_hash].add(feature)
+                hash_collector[base_key].add(feature)
 
         return hash_collector
